@@ -44,6 +44,9 @@ def cases(tier, seed):
     for sc, c in common.add_algs(common.zero_comp_scope(lvl),
                                  lambda c: common.shipped(c, lvl, "diag")):
         out.append((sc, c))
+    for sc, c in common.add_algs(common.zero_demand_scope(lvl), lambda c: [{"kind": "queue"}, {"kind": "batch", "p": 1, "min": 1}],
+                                 feasible_only=False):
+        out.append((sc, c))
     for sc, c in common.add_algs(common.wide_scope(lvl),
                                  lambda c: common.wide_algs(c, lvl)):
         out.append((sc, dict(c, delay={"mode": "choice", "arity": 3})))
